@@ -49,7 +49,13 @@ RULE = ('corpus (26 edge cases), then a skeleton (every scale of {0.5,0.75,1,1.5
         'and resample; 1/k with k dividing / not dividing the sizes; both refusals of resample) and random planes: sizes 16..48, '
         'smooth Gaussian x polynomial or hard-edged amplitude and OPD, scalar/integer variants, masks none/full/disk/segment cube '
         '(2-4)/integer/bool/scalar, random p/2^k and non-dyadic float scales, uniform/non-uniform/missing pixel scale; an equal '
-        'number of tiny (2..6 sample) planes for the vm_compute cross-check; non-trivial = array amplitude, scale != 1, no refusal')
+        'number of tiny (2..6 sample) planes for the vm_compute cross-check; dtypes float64/float32/int/bool/uint8, scale and '
+        'pixel-scale argument forms float/np.float64/np.float32/0-d array/int and scalar/tuple/list/array; HISTORIES: 2-5 '
+        'rescale/resample calls on ONE plane to the same and to different targets with setter updates, in-place edits of opd / '
+        'amplitude / mask / tilt list and Plane.copy() in between, every call compared with the model applied to the CURRENT '
+        'attributes and with the same call on a fresh equal plane; SEQUENCES of different planes sharing only the scale or the '
+        'output shape; after every call the returned plane is mutated and the original re-inspected; '
+        'non-trivial = array amplitude, scale != 1, no refusal')
 
 TOL = 1e-9
 POWER_TOL = 1e-3       # named in the property; measured worst 1.6e-4 on the accuracy-test planes (factor 6)
@@ -77,15 +83,34 @@ def smooth_fields(n, m, g):
     return amp, opd
 
 
+def amp_of(n, m, g, kind):
+    amp, _ = smooth_fields(n, m, g)
+    if kind == 'scalar':
+        return 1.0
+    if kind == 'int':
+        return np.ones((n, m), dtype=int)
+    if kind == 'aperture':       # smooth amplitude with a hard edge: exact zeros outside the disk
+        u, v = grid(n, m)
+        return amp * (np.hypot(u, v) <= 0.8).astype(float)
+    if kind == 'float32':
+        return amp.astype(np.float32)
+    return amp
+
+
 def build(c):
+    """arrays of the plane a case describes.  Optional keys (used by the states of a history): g_opd (the OPD has its
+    own parameters), mask_from ({g, amp}: the mask Plane() derived from an EARLIER amplitude), mask_cut (rows zeroed in place)"""
     n, m = c['n'], c['m']
-    amp, opd = smooth_fields(n, m, c['g'])
+    _, opd = smooth_fields(n, m, c.get('g_opd', c['g']))
     u, v = grid(n, m)
     r = np.hypot(u, v)
     disk = (r <= 0.8).astype(float)
     mk = c['mask']
     if mk == 'none':
         mask = None
+        if c.get('mask_from'):
+            mask = np.array(amp_of(n, m, c['mask_from']['g'], c['mask_from']['amp']))
+            mask[mask != 0] = 1
     elif mk == 'full':
         mask = np.ones((n, m))
     elif mk == 'disk':
@@ -94,6 +119,8 @@ def build(c):
         mask = disk.astype(int)
     elif mk == 'booldisk':
         mask = disk.astype(bool)
+    elif mk == 'u8disk':
+        mask = disk.astype(np.uint8)
     elif mk == 'scalar':
         mask = 1.0
     else:   # 'seg<k>': k angular sectors of the disk, separated by gaps
@@ -105,18 +132,65 @@ def build(c):
             hi = -math.pi + 2 * math.pi * (q + 1) / k
             segs.append(((th >= lo + 0.15) & (th < hi - 0.15) & (r <= 0.85) & (r >= 0.12)).astype(float))
         mask = np.array(segs)
-    ak = c['amp']
-    if ak == 'scalar':
-        amp = 1.0
-    elif ak == 'int':
-        amp = np.ones((n, m), dtype=int)
-    elif ak == 'aperture':       # smooth amplitude with a hard edge: exact zeros outside the disk
-        amp = amp * disk
+    amp = amp_of(n, m, c['g'], c['amp'])
+    if c.get('mask_cut'):
+        if mask is None:
+            mask = np.array(amp)
+            mask[mask != 0] = 1
+        mask = np.array(mask)
+        mask[..., :n // 4, :] = 0
     if c['opd'] == 'scalar':
         opd = 0.0
     elif c['opd'] == 'aperture':
         opd = opd * disk
+    elif c['opd'] == 'float32':
+        opd = opd.astype(np.float32)
     return amp, opd, mask
+
+
+# ------------------------------------------------------------------ histories: several calls on ONE plane
+CALLS = ('rescale', 'resample')
+MULTI = ('history', 'sequence')
+
+
+def walk(c):
+    """states of a history case: yields (k, step, v) with v the single-call case describing the plane's CURRENT attributes
+    (after the step for an update, at the call for a call).  The bookkeeping is the harness's own, not the plane's."""
+    v = {k: x for k, x in c.items() if k != 'steps'}
+    v['tilt'] = list(c.get('tilt', []))
+    for k, st in enumerate(c['steps']):
+        do = st['do']
+        if do in CALLS:
+            vv = dict(v)
+            vv['op'] = do
+            if do == 'rescale':
+                vv['scale'] = st['scale']
+            else:
+                vv['new_ps'] = st['new_ps']
+            vv['arg_form'] = st.get('arg_form', 'float')
+            yield k, st, vv
+            continue
+        v = dict(v)
+        if do in ('set_opd', 'inplace_opd'):
+            v['g_opd'] = st['g']
+        elif do in ('set_amp', 'inplace_amp'):
+            v.setdefault('g_opd', v['g'])
+            if v['mask'] == 'none' and not v.get('mask_from'):
+                v['mask_from'] = {'g': v['g'], 'amp': v['amp']}
+            v['g'] = st['g']
+        elif do == 'inplace_mask':
+            v['mask_cut'] = 1
+        elif do == 'tilt_append':
+            v['tilt'] = v['tilt'] + [[st['x'], st['y']]]
+        yield k, st, v
+
+
+def calls_of(c):
+    if c['op'] == 'sequence':       # independent planes, one after the other in one process
+        return list(c['cases'])
+    if c['op'] != 'history':
+        return [c]
+    return [v for _, st, v in walk(c) if st['do'] in CALLS]
 
 
 def the_scale(c):
@@ -201,6 +275,15 @@ def finish_case(rng, c, s):
             c['new_ps'] = str(Fraction(new))
     if not float_exact(c) or not constructible(c):
         return None
+    # legal argument forms: python float, numpy scalars, 0-d array, int; pixelscale scalar / tuple / list / array
+    forms = ['float', 'float', 'np64', 'array0d']
+    if dyadic_small(s):
+        forms.append('np32')
+    if c['op'] == 'rescale' and s.denominator == 1:
+        forms.append('int')
+    c['arg_form'] = rng.choice(forms)
+    if c['ps'] is not None:
+        c['ps_form'] = rng.choice(['tuple', 'tuple', 'list', 'array'] + (['scalar', 'scalar'] if c['ps'][0] == c['ps'][1] else []))
     s_eff = the_scale(c)
     if s_eff != s or s_eff < Fraction(1, 4) or s_eff > 4:
         return None
@@ -224,17 +307,114 @@ def rnd_plane(rng, n, m, special=True):
     if special:
         t = rng.random()
         if t < 0.05:
-            c['mask'] = rng.choice(['intdisk', 'booldisk'])
+            c['mask'] = rng.choice(['intdisk', 'booldisk', 'u8disk'])
         elif t < 0.08:
             c['amp'] = 'int'
-        elif t < 0.14:
+        elif t < 0.11:
+            c['amp'] = 'float32'
+            c['opd'] = rng.choice(['float32', 'smooth'])
+        elif t < 0.125:
+            c['mask'] = 'seg1'
+        elif t < 0.175:
             c['amp'] = 'scalar'
             if c['mask'] == 'none':
                 c['mask'] = 'disk'
-        elif t < 0.17:
+        elif t < 0.2:
             c['mask'] = 'scalar'
             c['amp'] = rng.choice(['scalar', 'smooth'])
     return c
+
+
+UPDATES = ('inplace_opd', 'inplace_amp', 'inplace_mask', 'tilt_append', 'set_opd', 'set_amp', 'copy')
+
+
+def rnd_history(rng, quick):
+    """2-5 rescale/resample calls on ONE plane, to the same and to different targets, with updates through the property
+    setters and in-place edits (opd, amplitude, mask, tilt list, Plane.copy()) in between"""
+    hi = 22 if quick else 32
+    n, m = rng.randint(16, hi), rng.randint(16, hi)
+    if rng.random() < 0.3:
+        m = n
+    c = {'op': 'history', 'n': n, 'm': m, 'g': rnd_g(rng), 'amp': rng.choice(['smooth', 'smooth', 'aperture']),
+         'opd': 'smooth', 'mask': rng.choice(['none', 'none', 'full', 'disk', 'seg2', 'seg3'])}
+    a, k = rng.randint(1, 9), rng.choice([256, 1024])
+    scales = [Fraction(x) for x in rng.sample(['1/2', '3/4', '1', '3/2', '2', '5/4', '3'], 2)]
+    lcm = scales[0].numerator * scales[1].numerator
+    c['ps'] = [str(Fraction(lcm * a, k))] * 2
+    c['ps_form'] = rng.choice(['tuple', 'scalar', 'list'])
+
+    def call(i, kind=None):
+        sc = scales[i]
+        kind = kind or ('resample' if rng.random() < 0.75 else 'rescale')
+        if kind == 'resample':
+            return {'do': 'resample', 'new_ps': str(Fraction(c['ps'][0]) / sc), 'arg_form': rng.choice(['float', 'float', 'np64', 'array0d'])}
+        return {'do': 'rescale', 'scale': str(sc)}
+
+    def update():
+        do = rng.choice(UPDATES)
+        if do == 'tilt_append':
+            return [{'do': do, 'x': round(rng.uniform(-2e-6, 2e-6), 9), 'y': round(rng.uniform(-2e-6, 2e-6), 9)}]
+        if do == 'copy':        # continue on a copy of the (already resampled) plane, then edit the copy
+            return [{'do': 'copy'}] + [u for u in update() if u['do'] != 'copy']
+        if do == 'inplace_mask':
+            return [{'do': do}]
+        return [{'do': do, 'g': rnd_g(rng)}]
+
+    first = call(0)
+    t = rng.random()
+    if t < 0.5:         # same target again after an update
+        steps = [first] + update() + [dict(first)]
+    elif t < 0.9:       # two targets, update, both again
+        second = call(1)
+        steps = [first, second] + update() + [dict(first)] + (update() if rng.random() < 0.5 else []) + [dict(second), dict(first)]
+    else:               # no update at all: repeated calls must repeat
+        steps = [first, call(1), dict(first)]
+    c['steps'] = steps
+    for v in calls_of(c):
+        if not float_exact(v) or not constructible(v):
+            return None
+    return c
+
+
+SEQ_SCALES = ['1/2', '3/4', '1', '3/2', '2', '3', '5/4', '1/4', '4']
+
+
+def rnd_sequence(rng, quick):
+    """3-5 DIFFERENT planes rescaled one after the other in one process with ONE thing in common (same output shape from
+    different sizes and scales, or same scale and output shape from different input sizes): a module-level or class-level
+    cache keyed on too little (scale only, output shape only) returns the grid / result of an earlier plane"""
+    def sizes_for(N):
+        return [(n, Fraction(sc)) for sc in SEQ_SCALES for n in range(4, 49) if math.ceil(n * Fraction(sc)) == N]
+    N, M = rng.choice([8, 12, 18, 24]), rng.choice([8, 12, 18, 24])
+    what = rng.choice(['same-output-shape', 'same-scale-and-output-shape'])
+    if what == 'same-scale-and-output-shape':
+        sc = Fraction(rng.choice(['1/2', '3/4', '1/4']))
+        rows = [(n, sc) for n, q in sizes_for(N) if q == sc]
+        cols = [(m, sc) for m, q in sizes_for(M) if q == sc]
+        if not rows or not cols:
+            return None
+        picks = [(rng.choice(rows)[0], rng.choice(cols)[0], sc) for _ in range(rng.randint(3, 4))]
+    else:
+        rows = sizes_for(N)
+        picks = []
+        for _ in range(rng.randint(3, 4)):
+            n, sc = rng.choice(rows)
+            ms = [m for m, q in sizes_for(M) if q == sc]
+            if ms:
+                picks.append((n, rng.choice(ms), sc))
+    if len(picks) < 3:
+        return None
+    picks.append(picks[0])
+    cases = []
+    for n, m, sc in picks:
+        c = rnd_plane(rng, n, m, special=False)
+        c['op'] = 'rescale' if rng.random() < 0.6 else 'resample'
+        c = finish_case(rng, c, sc)
+        if c is None:
+            return None
+        cases.append(c)
+    cases[-1] = dict(cases[0])
+    return {'op': 'sequence', 'what': what, 'cases': cases}
 
 
 def generate(rng, tier):
@@ -280,6 +460,35 @@ def generate(rng, tier):
         c = rnd_plane(rng, n, m)
         c['op'] = 'rescale' if rng.random() < 0.7 else 'resample'
         add(c, rnd_scale(rng))
+    # histories: state carried between calls (caches keyed on too little, stale copies)
+    n_hist = 24 if quick else 160
+    tries = 0
+    while n_hist and tries < 2000:
+        tries += 1
+        c = rnd_history(rng, quick)
+        if c is not None:
+            out.append(c)
+            n_hist -= 1
+    n_seq = 10 if quick else 80
+    tries = 0
+    while n_seq and tries < 2000:
+        tries += 1
+        c = rnd_sequence(rng, quick)
+        if c is not None:
+            out.append(c)
+            n_seq -= 1
+    # legal argument forms on scales that are NOT exactly representable in float32 (a silent down-cast changes them)
+    for sc in (1 / 3, 1.7, 0.6, 2.1):
+        for form in ('np64', 'array0d', 'float'):
+            c = rnd_plane(rng, rng.choice([16, 32]), rng.choice([16, 32]), special=False)
+            c['op'] = 'rescale'
+            c = finish_case(rng, c, Fraction(sc))
+            if c is not None and c['n'] * c['m'] * sc * sc <= budget:
+                c['arg_form'] = form
+                if c['ps'] is None:
+                    c['ps'] = ['1/64', '1/64']
+                    c['ps_form'] = 'scalar'
+                out.append(c)
     # tiny planes (2..6 samples), randomly interleaved: they exercise the same code paths and are small enough for the
     # runner's vm_compute cross-check of the extracted binary
     tiny = []
@@ -299,6 +508,11 @@ def generate(rng, tier):
 
 
 def classify(c):
+    if c['op'] == 'sequence':
+        return 'sequence/' + c.get('what', '')
+    if c['op'] == 'history':
+        ups = sorted({st['do'] for st in c['steps'] if st['do'] not in CALLS})
+        return 'history/' + '+'.join(ups)
     s = the_scale(c)
     if s is None:
         sc = 'no-ps'
@@ -331,6 +545,10 @@ def scalar_mask(c):
 
 
 def nontrivial(c):
+    if c['op'] == 'sequence':
+        return len(c['cases']) >= 2
+    if c['op'] == 'history':
+        return len(calls_of(c)) >= 2 and any(st['do'] not in CALLS for st in c['steps'])
     s = the_scale(c)
     return (expect_refusal(c) is None and s is not None and s != 1 and c['amp'] in ('smooth', 'aperture')
             and not scalar_mask(c))
@@ -354,7 +572,15 @@ def enc_fld(x):
 
 
 def encode(c):
-    s = the_scale(c)
+    if c['op'] in MULTI:
+        vs = calls_of(c)
+        out = [3, len(vs)]
+        for v in vs:
+            e = encode(v)
+            if e is None:
+                return None
+            out += e
+        return out
     q = Fraction(c['scale']) if c['op'] == 'rescale' else Fraction(c['new_ps'])
     if q <= 0:
         return None
@@ -383,9 +609,20 @@ UNKNOWN = None
 
 
 def decode(c, ints):
-    if ints[0] == 1:
-        return {'err': C.ERRNAMES.get(ints[1], str(ints[1]))}
-    r = C.Reader(ints[1:])
+    if c['op'] in MULTI:
+        r = C.Reader(ints[1:])
+        out = [decode_one(r) for _ in calls_of(c)]
+        assert r.done()
+        return out
+    r = C.Reader(ints)
+    out = decode_one(r)
+    assert r.done()
+    return out
+
+
+def decode_one(r):
+    if r.z() == 1:
+        return {'err': C.ERRNAMES.get(r.z(), '?')}
 
     def samp():
         t = r.z()
@@ -407,7 +644,6 @@ def decode(c, ints):
     t = r.z()
     mask = ('mono', oarr()) if t == 1 else ('cube', r.lst(oarr))
     ps = r.opt(lambda: (r.q(), r.q()))
-    assert r.done()
     return {'amp': amp, 'opd': opd, 'mask': mask, 'ps': ps}
 
 
@@ -426,8 +662,40 @@ class Arr(str):
 def mk_plane(c):
     lentil = C.import_lentil()
     amp, opd, mask = build(c)
-    ps = None if c['ps'] is None else (float(Fraction(c['ps'][0])), float(Fraction(c['ps'][1])))
-    return lentil.Plane(amplitude=amp, opd=opd, mask=mask, pixelscale=ps)
+    if c['ps'] is None:
+        ps = None
+    else:
+        ps = (float(Fraction(c['ps'][0])), float(Fraction(c['ps'][1])))
+        form = c.get('ps_form', 'tuple')
+        if form == 'scalar' and ps[0] == ps[1]:
+            ps = ps[0]
+        elif form == 'list':
+            ps = list(ps)
+        elif form == 'array':
+            ps = np.array(ps)
+    p = lentil.Plane(amplitude=amp, opd=opd, mask=mask, pixelscale=ps)
+    for x, y in c.get('tilt', []):
+        p.tilt.append(lentil.Tilt(x=x, y=y))
+    return p
+
+
+def arg_of(c):
+    """the scale / pixel scale in the legal argument form the case asks for"""
+    x = float(Fraction(c['scale'] if c['op'] == 'rescale' else c['new_ps']))
+    form = c.get('arg_form', 'float')
+    if form == 'np64':
+        return np.float64(x)
+    if form == 'np32' and float(np.float32(x)) == x:
+        return np.float32(x)
+    if form == 'array0d':
+        return np.array(x)
+    if form == 'int' and x == int(x):
+        return int(x)
+    return x
+
+
+def tol_of(a):
+    return 1e-6 if np.asarray(a).dtype == np.float32 else TOL
 
 
 def fields_of(p):
@@ -482,18 +750,21 @@ def use_result(q):
             pass
 
 
-def run_impl(c):
-    if c.get('test') == 'accuracy':
-        return run_accuracy(c)
-    p = mk_plane(c)
+def call_plane(p, c):
+    return p.rescale(arg_of(c)) if c['op'] == 'rescale' else p.resample(arg_of(c))
+
+
+def tilt_values(p):
+    return [[float(t.x), float(t.y)] for t in p.tilt]
+
+
+def run_one(p, c, fresh=False):
+    """one rescale/resample call on the plane p, whose current attributes the single-call case c describes"""
     before = snapshot(p)
     with warnings.catch_warnings():
         warnings.simplefilter('ignore')
         try:
-            if c['op'] == 'rescale':
-                q = p.rescale(float(Fraction(c['scale'])))
-            else:
-                q = p.resample(float(Fraction(c['new_ps'])))
+            q = call_plane(p, c)
         except Exception as e:      # noqa: BLE001 - the exception class is the observable
             after = snapshot(p)
             return {'err': type(e).__name__, 'untouched': same_snapshot(before, after)}
@@ -504,14 +775,78 @@ def run_impl(c):
         res = {'amp': Arr(q.amplitude), 'opd': Arr(q.opd), 'mask': Arr(q.mask),
                'mask_dtype': str(np.asarray(q.mask).dtype),
                'ps': None if q.pixelscale is None else [float(q.pixelscale[0]), float(q.pixelscale[1])],
+               'tilt': tilt_values(q),
                'untouched': same_snapshot(before, after), 'shares_memory': bool(shares),
                'in_amp': Arr(before[0]), 'in_opd': Arr(before[1]), 'in_mask': Arr(before[2])}
+        if fresh:       # the same call on a fresh plane with equal attributes: no history
+            res['fresh_diff'] = fresh_diff(c, res)
         # second step: use the returned plane, then look at the original again
         use_result(q)
         leak = snapshot_diff(before, snapshot(p))
     res['untouched_after_use'] = leak is None
     res['leak'] = leak or ''
     return res
+
+
+def fresh_diff(c, res):
+    """difference between the result and the result of rescale(ps/new) (resp. the same rescale) on a FRESH equal plane"""
+    f = mk_plane(c)
+    try:
+        if c['op'] == 'resample':
+            q = f.rescale(f.pixelscale[0] / arg_of(c))
+        else:
+            q = f.rescale(arg_of(c))
+    except Exception as e:      # noqa: BLE001
+        return f'a fresh equal plane raises {type(e).__name__}'
+    for name, a in (('amp', q.amplitude), ('opd', q.opd), ('mask', q.mask)):
+        if not np.array_equal(np.asarray(a), res[name].a):
+            d = np.asarray(a, dtype=float) - res[name].a if np.shape(a) == res[name].a.shape else None
+            return (f'{name} differs from the same call on a fresh equal plane'
+                    + (f' (max |difference| {np.abs(d).max():.3e})' if d is not None else ' (shape)'))
+    ps = None if q.pixelscale is None else [float(q.pixelscale[0]), float(q.pixelscale[1])]
+    if ps != res['ps']:
+        return f'pixelscale {res["ps"]} differs from {ps} on a fresh equal plane'
+    if tilt_values(q) != res['tilt']:
+        return f'tilt {res["tilt"]} differs from {tilt_values(q)} on a fresh equal plane'
+    return None
+
+
+def run_history(c):
+    lentil = C.import_lentil()
+    base = {k: x for k, x in c.items() if k != 'steps'}
+    p = mk_plane(base)
+    out = []
+    for k, st, v in walk(c):
+        do = st['do']
+        if do in CALLS:
+            out.append(run_one(p, v, fresh=True))
+            continue
+        amp, opd, mask = build(v)
+        if do == 'set_opd':
+            p.opd = np.array(opd)
+        elif do == 'inplace_opd':
+            p.opd[...] = opd
+        elif do == 'set_amp':
+            p.amplitude = np.array(amp)
+        elif do == 'inplace_amp':
+            p.amplitude[...] = amp
+        elif do == 'inplace_mask':
+            p.mask[...] = mask
+        elif do == 'tilt_append':
+            p.tilt.append(lentil.Tilt(x=st['x'], y=st['y']))
+        elif do == 'copy':
+            p = p.copy()
+    return {'steps': out}
+
+
+def run_impl(c):
+    if c.get('test') == 'accuracy':
+        return run_accuracy(c)
+    if c['op'] == 'history':
+        return run_history(c)
+    if c['op'] == 'sequence':
+        return {'steps': [run_one(mk_plane(v), v, fresh=False) for v in c['cases']]}
+    return run_one(mk_plane(c), c)
 
 
 # ------------------------------------------------------------------ comparison with the model
@@ -541,8 +876,33 @@ def cmp_arr(name, impl_a, model_a, scale, mask_mode=None):
     return None
 
 
+def history_label(c, k):
+    if c['op'] == 'sequence':
+        return (f'call {k} of a sequence of independent planes [' +
+                '; '.join(f"{v['n']}x{v['m']} {v['op']}({v.get('scale', v.get('new_ps'))})" for v in c['cases'][:k + 1]) + ']: ')
+    seq = []
+    n = -1
+    for _, st, _ in walk(c):
+        if st['do'] in CALLS:
+            n += 1
+            seq.append(f"{st['do']}({st.get('scale', st.get('new_ps'))})" + ('  <-- this call' if n == k else ''))
+            if n == k:
+                break
+        else:
+            seq.append(st['do'])
+    return f'history call {k} [' + '; '.join(seq) + ']: '
+
+
 def compare(c, impl, model):
+    if c['op'] in MULTI:
+        for k, (v, r, mres) in enumerate(zip(calls_of(c), impl['steps'], model)):
+            msg = compare(v, r, mres)
+            if msg:
+                return history_label(c, k) + msg
+        return None
     if 'err' in model or 'err' in impl:
+        if scalar_mask(c) and model.get('err') == 'TypeError' and 'err' not in impl:
+            return None     # a plane without a mask array is outside the property: not refusing it is no disagreement
         if impl.get('err') != model.get('err'):
             return f"implementation {impl.get('err', 'returned a plane')}, model {model.get('err', 'returns a plane')}"
         return None
@@ -566,7 +926,7 @@ def compare(c, impl, model):
             if a.ndim != 2:
                 return f'{name}: ndim {a.ndim}, model 2'
             sc = float(np.max(np.abs(inp))) / (float(s) if name == 'amp' else 1.0)
-            msg = cmp_arr(name, a, val, sc)
+            msg = cmp_arr(name, a, val, sc * tol_of(inp) / TOL)
             if msg:
                 return msg
     # mask
@@ -647,6 +1007,14 @@ def node_index(n, N, s, j):
 def oracle(c, impl):
     if c.get('test') == 'accuracy':
         return accuracy_verdict(impl)
+    if c['op'] in MULTI:
+        for k, (v, r) in enumerate(zip(calls_of(c), impl['steps'])):
+            msg = oracle(v, r)
+            if not msg and r.get('fresh_diff'):
+                msg = 'the result depends on the history of the plane: ' + r['fresh_diff']
+            if msg:
+                return history_label(c, k) + msg
+        return None
     ref = expect_refusal(c)
     if ref is not None:
         if impl.get('err') != ref:
@@ -668,6 +1036,10 @@ def oracle(c, impl):
                 'array writes): the result shares mutable state (tilt list / 0-d arrays) with the original: ' + impl['leak'])
     if impl['shares_memory']:
         return 'the returned plane shares memory with the original'
+    lentil = C.import_lentil()
+    want = [[float(t.x), float(t.y)] for t in (lentil.Tilt(x=x, y=y) for x, y in c.get('tilt', []))]
+    if impl['tilt'] != want:
+        return f"tilt bookkeeping of the result {impl['tilt']} is not the plane's current {want}"
     N, M = math.ceil(n * s), math.ceil(m * s)
     arrays = [('mask', impl['mask'].a)]
     if np.ndim(amp) == 2:
@@ -731,7 +1103,7 @@ def oracle(c, impl):
         if np.ndim(amp) == 2:
             exp = np.asarray(amp, dtype=float)[yy, xx] / sf
             got = impl['amp'].a[ii, jj]
-            bad = np.abs(got - exp) > TOL * np.max(np.abs(amp)) / sf
+            bad = np.abs(got - exp) > tol_of(amp) * np.max(np.abs(amp)) / sf
             if bad.any():
                 k = np.argwhere(bad)[0]
                 return (f'amplitude[{rows[k[0]][0]},{cols[k[1]][0]}] = {got[tuple(k)]!r}, expected amplitude'
@@ -739,7 +1111,7 @@ def oracle(c, impl):
         if np.ndim(opd) == 2:
             exp = np.asarray(opd, dtype=float)[yy, xx]
             got = impl['opd'].a[ii, jj]
-            bad = np.abs(got - exp) > TOL * max(np.max(np.abs(opd)), 1e-300)
+            bad = np.abs(got - exp) > tol_of(opd) * max(np.max(np.abs(opd)), 1e-300)
             if bad.any():
                 k = np.argwhere(bad)[0]
                 return (f'opd[{rows[k[0]][0]},{cols[k[1]][0]}] = {got[tuple(k)]!r}, expected opd'
@@ -751,7 +1123,7 @@ def oracle(c, impl):
             if not np.array_equal(b[ii, jj], exp):
                 return f'mask segment {q} differs from the input mask at nodes of the sampling grid'
     if s == 1:
-        if np.ndim(amp) == 2 and not np.allclose(impl['amp'].a, amp, rtol=0, atol=TOL * np.max(np.abs(amp))):
+        if np.ndim(amp) == 2 and not np.allclose(impl['amp'].a, amp, rtol=0, atol=tol_of(amp) * np.max(np.abs(amp))):
             return 'rescale(1) is not the identity on the amplitude'
     return None
 
